@@ -94,9 +94,12 @@ def representatives(ctx, state):
     elif (F, B) == ("valid", None):
         out.append(("function 0 (no blocks) selected", _builder(t, [_function(t, 0)], 0, None)))
         out.append(("function 1 of 2 selected", _builder(t, [_function(t, 2, True), _function(t, 1)], 1, None)))
+        # the selected function is not the last one and has fewer blocks than the last
+        out.append(("function 0 (one block) of 2 selected, the other has two blocks", _builder(t, [_function(t, 1), _function(t, 2, True)], 0, None)))
     elif (F, B) == ("valid", "valid"):
         out.append(("function 0, block 0 selected", _builder(t, [_function(t, 1)], 0, 0)))
         out.append(("function 0 of 2, block 1 of 2 selected", _builder(t, [_function(t, 2), _function(t, 1, True)], 0, 1)))
+        out.append(("function 0 (one block) of 2, block 0 selected, the other has two blocks", _builder(t, [_function(t, 1), _function(t, 2, True)], 0, 0)))
     elif (F, B) == ("valid", "stale"):
         out.append(("function 1 (one block) with block index 1 selected", _builder(t, [_function(t, 2, True), _function(t, 1)], 1, 1)))
         out.append(("function 0 (no blocks) with block index 0 selected", _builder(t, [_function(t, 0)], 0, 0)))
@@ -105,15 +108,21 @@ def representatives(ctx, state):
     elif F == "stale":
         out.append(("function index 3 of 1 selected", _builder(t, [_function(t, 1, True)], 3, None if B is None else 0)))
     if EXTRA_REPRESENTATIVES:
-        three = lambda: [_function(t, 1, True), _function(t, 2), _function(t, 0)]
-        if (F, B) == (None, None):
-            out.append(("three functions, none selected", _builder(t, three(), None, None)))
-        elif (F, B) == ("valid", None):
-            out.append(("function 2 of 3 (no blocks) selected", _builder(t, three(), 2, None)))
-        elif (F, B) == ("valid", "valid"):
-            out.append(("function 1 of 3, block 1 of 2 selected", _builder(t, three(), 1, 1)))
-        elif (F, B) == ("valid", "stale"):
-            out.append(("function 2 of 3 (no blocks) with block index 1 selected", _builder(t, three(), 2, 1)))
+        # thorough tier: every module shape with up to two functions of 0..2 blocks (the last function open or finished) and every
+        # selection (function in {none, 0, 1, 2}, block in {none, 0, 1, 2}) whose abstraction is this state
+        import itertools as _it
+        seen = 0
+        for nf in (0, 1, 2):
+            for shape in _it.product((0, 1, 2), repeat=nf):
+                for last_open in ((True, False) if nf else (False,)):
+                    for sf in (None, 0, 1, 2):
+                        for sb in (None, 0, 1, 2):
+                            fns = [_function(t, nb, not (last_open and i == nf - 1)) for i, nb in enumerate(shape)]
+                            b = _builder(t, fns, sf, sb)
+                            if abstract(b) == (F, B):
+                                seen += 1
+                                out.append(("functions with %s blocks%s; selected function %s, block %s" % (
+                                    list(shape), ", last one open" if last_open else "", sf, sb), b))
     return out
 
 
